@@ -32,7 +32,11 @@ class List(Expression):
         return not self.min_len or self.min_len == '0'
 
     def can_partially_succeed(self):
-        return not self.always_succeeds() and self.expr.can_partially_succeed()
+        if self.always_succeeds():
+            return False
+        # When more than one element is required, the list can fail after
+        # consuming some elements, even if a single element cannot.
+        return self.expr.can_partially_succeed() or self.min_len not in (1, '1')
 
     def _compile(self, out, flags):
         if self.max_len == 0 or self.max_len == '0':
